@@ -400,7 +400,7 @@ def run_hist(case):
                             want.append((reg.fid, args))
                     out = [g[0] for g in got]
                     bump("probe:joined_dispatch")
-                    if got != want:
+                    if got != want and not ((insts[ai][1] in order_free or insts[bi][1] in order_free) and sorted(got) == sorted(want)):
                         V("dispatch_wrong_listeners", "joined dispatch called listeners %s, registered (model) %s"
                           % ([g[0] for g in got], [w[0] for w in want]), op=i)
             elif kind == "dispatch":
